@@ -50,6 +50,8 @@ def run(ctx):
         for (kind, v), m in zip(cases, models):
             opts = dict(wide=ctx.rng.random() < 0.3, vpstyle=ctx.rng.choice([0, 0, 1]),
                         prov=ctx.rng.choice(A.PROVENANCES) if ctx.rng.random() < 0.2 else None, scalars=ctx.rng.choice([None, None, "np", "py"]))
+            if ctx.rng.random() < 0.03:
+                ctx.dist["provoked:" + B.provoke(ctx.rng).split(":")[0]] += 1      # a failure elsewhere in the process, caught
             r = B.real_side(kind, v, **opts)
             ctx.case((kind, v), nontrivial=A.nontrivial(kind, v), sample=dict(kind=kind, v=v) if len(repr(v)) < 700 else None,
                      tags=B.shape_tags(kind, v) + (["f64-input"] if opts["wide"] else []) + ([f"prov={opts['prov']}"] if opts["prov"] else []) + ([f"scalars={opts['scalars']}"] if opts.get("scalars") else []))
